@@ -126,7 +126,7 @@ void BinaryFileReader::read_topo_chunk(Decoder &reader)
 
     ValenceVec valences;
 
-    uint64_t total_handles = header.valence * header.span.count;
+    uint64_t total_handles = static_cast<uint64_t>(header.valence) * header.span.count;
 
     if (header.valence == 0)
     {
